@@ -3,6 +3,8 @@ package checks
 import (
 	"bytes"
 	"fmt"
+	"sync"
+	"sync/atomic"
 )
 
 // Spare-capacity monitor: byte-slice arguments are handed to the library as the front part of a larger
@@ -102,4 +104,45 @@ func reusedBufferPass(valid []byte, cands []byteCand, call func(sig []byte) (boo
 		report("valid-fresh-slice", fmt.Sprintf("the valid string in a fresh slice after the reused-buffer pass: verdict (%v,%v), expected %v", ok, err, want), valid)
 	}
 	return
+}
+
+// parallelReplay: functions that share no object with their caller (constructors, one-shot helpers, key
+// derivation, decoders) are called from many goroutines at once by any server. Each table entry is run
+// once alone to record its output, then 16 goroutines replay random entries in tight loops; every output
+// must equal the recorded one. A package-level scratch buffer, pool or cache that is not safe under
+// parallel use shows as a differing output (or as a crash, which the supervisor reports).
+func parallelReplay(table []func() []byte, iters int, seed uint64) (calls int64, firstDiff string) {
+	want := make([][]byte, len(table))
+	for i, f := range table {
+		want[i] = f()
+	}
+	var wg sync.WaitGroup
+	var diff atomic.Value
+	var n atomic.Int64
+	for g := 0; g < 16; g++ {
+		wg.Add(1)
+		go func(g int) {
+			defer wg.Done()
+			x := seed*2654435761 + uint64(g)*40503 + 1
+			for i := 0; i < iters && diff.Load() == nil; i++ {
+				x ^= x << 13
+				x ^= x >> 7
+				x ^= x << 17
+				k := int(x % uint64(len(table)))
+				if g%4 == 3 {
+					k = (g + i) % len(table) // some goroutines walk the table in step
+				}
+				got := table[k]()
+				n.Add(1)
+				if !bytes.Equal(got, want[k]) {
+					diff.CompareAndSwap(nil, fmt.Sprintf("table entry %d: alone it returns %x, among 16 goroutines it returned %x", k, want[k][:min(len(want[k]), 48)], got[:min(len(got), 48)]))
+				}
+			}
+		}(g)
+	}
+	wg.Wait()
+	if d, ok := diff.Load().(string); ok {
+		return n.Load(), d
+	}
+	return n.Load(), ""
 }
